@@ -362,6 +362,11 @@ def dump_accessible(aobj, objs, aname, modobj=None, writes=None):
         # the write probes of ALL parameters of the module are done before anything else is looked at: they leave the last
         # accepted value in the parameter (and, through callbacks, in parameters following it), in every dump alike
         d['writes'] = writes
+        # a name declared as StructParam somewhere in the chain: its write_<p> is the generated struct write function (it passes
+        # the members on to THEIR write functions), not the plain "validate and store" the monitor writesOwnB is about
+        from frappy.extparams import StructParam
+        if any(isinstance(vars(c).get(aname), StructParam) for c in type(modobj).__mro__):
+            d['struct_write'] = True
         d['validates'] = [outcome(lambda v: aobj.datatype.export_value(aobj.datatype.validate(v)), v) for v in WRITE_CATALOGUE]
     props = {}
     for pn, po in aobj.propertyDict.items():       # what exportProperties() does, the datatype apart
@@ -1854,7 +1859,7 @@ def val_pairs(dumps, acc, wacc=None):
         for a, x in d.get('acc', []):
             if x.get('catalogue') is not None:
                 acc.add((jtext(x['datainfo']), jtext(x['catalogue'])))
-            if wacc is not None and x.get('writes') is not None:
+            if wacc is not None and x.get('writes') is not None and not x.get('struct_write'):
                 wacc[(jtext(x['validates']), jtext(x['writes']))] = owner + ':' + a
 
 
@@ -2032,7 +2037,8 @@ def evaluate(ctx, program, init, steps, second, answers, laters):
             members = [m for m, _ in start['members']]
             impl = res if res[0] != 'ok' else \
                 [[[m, jtext(canon(v))] for m, v in zip(members, res[1])], sorted([m, jtext(canon(v))] for m, v in res[1][-1].items())]
-            if res[0] == 'ok' and impl != [pred[0], sorted(pred[1])]:
+            # (a member whose datatype - overridden in a subclass - refuses the value is outside the model: it keeps what it had)
+            if res[0] == 'ok' and [start['m'], start['v']] in impl[0] and impl != [pred[0], sorted(pred[1])]:
                 dis = {'case': program, 'model': pred, 'impl': impl, 'at': i, 'owner': f'{key} {cname} (member update of a struct parameter)'}
                 break
     if jrun['bad'] is not None:
@@ -2050,7 +2056,7 @@ def evaluate(ctx, program, init, steps, second, answers, laters):
     # it is counted in the evidence (run), never judged here - what an operation changes is decided by the monitors alone
     if not jwrite['ok']:
         bad = sorted({o + ':' + a for st in steps for o, d in st['after'].items() for a, x in d.get('acc', [])
-                      if x.get('writes') is not None and x['writes'] != x['validates']})
+                      if x.get('writes') is not None and x['writes'] != x['validates'] and not x.get('struct_write')})
         viols.append({'sig': 'C09:write-ignores-own-datatype', 'what': f'write_<p>(v) through the wrapper does not follow the '
                       f'datatype of the instance written to: {bad[:4]}', 'case': program, 'detail': {'params': bad}})
     if jctx['bad']:
